@@ -42,8 +42,13 @@ type aOp struct {
 	Kind       string `json:"kind"` // build | lock | lbuild
 	Variant    int    `json:"variant"`
 	Plant      bool   `json:"plant,omitempty"`       // the variant's apks are planted as raw .apk files in the cache; HTTP (index included) serves variant 0
-	LockTamper string `json:"lock_tamper,omitempty"` // lbuild: zero | swap | malformed | bare (right checksum, no Q1 prefix)
+	// lbuild: zero | swap | malformed | bare (right checksum, no Q1 prefix) | caseflip (one base64 letter in the other
+	// case: another digest) | bitflip (one bit of the digest) | noncanon (another text for the SAME digest: must be accepted)
+	LockTamper string `json:"lock_tamper,omitempty"`
 	LockTarget int    `json:"lock_target,omitempty"`
+	// Same: the operation runs in the process of the previous one (no reset of the process-wide caches of
+	// pkg/apk/apk: globalApkCache, the memo of expanded packages keyed by URL, survives). Default: a fresh process.
+	Same bool `json:"same,omitempty"`
 }
 
 type aCase struct {
@@ -116,7 +121,26 @@ func regIdx(a aAlt) []int {
 
 var aTampers = []string{"ctl-desc", "ctl-other", "dat-other", "dat-body-resummed", "dat-body-stale", "dat-nosum", "consistent-badsum",
 	"consistent-nosum", "consistent-nosum-link", "consistent-malformed", "consistent-nodatahash", "consistent-dupdatahash", "other-apk", "newer-apk",
-	"zero-index", "missing", "sig-flip", "consistent-q1", "consistent-blanksum"}
+	"zero-index", "missing", "sig-flip", "consistent-q1", "consistent-blanksum",
+	// round 2: a republished package (new content AND new index checksum under the same URL), near-miss index checksums,
+	// entries of unsupported tar types, same-name entries in one data section
+	"republished", "caseflip-index", "bitflip-index",
+	"consistent-cont", "consistent-dev", "consistent-fifo", "consistent-hidden-cont",
+	"consistent-dup-regreg", "consistent-dup-symcopy", "consistent-dup-symown", "consistent-dup-hard", "consistent-dup-cont",
+	"consistent-dup-hidden", "consistent-dup-alias"}
+
+// sameLen returns a text of the same length as s that differs from it everywhere.
+func sameLen(s string, c byte) string {
+	b := []byte(s)
+	for i := range b {
+		if b[i] == c {
+			b[i] = c + 1
+		} else {
+			b[i] = c
+		}
+	}
+	return string(b)
+}
 
 // applyTamper edits the serve entry of package i (adding an alternative build when needed).
 func applyTamper(r *Rng, c *aCase, v []aServe, i int, kind string) {
@@ -193,6 +217,78 @@ func applyTamper(r *Rng, c *aCase, v []aServe, i int, kind string) {
 		s.Ctl, s.Dat = aRef{i, k}, aRef{i, k}
 	case "zero-index":
 		s.Index = "zero"
+	case "caseflip-index", "bitflip-index":
+		s.Index = strings.TrimSuffix(kind, "-index")
+	case "republished":
+		// the repository publishes new content under the same name-version and records ITS checksum: authentic by
+		// itself; a process that still holds the first publication must not install it for the new checksum
+		k := addAlt(func(a *aAlt) { a.Desc += " (republished)"; x := someReg(a); a.Files[x].Content += "second publication\n" })
+		s.Ctl, s.Dat, s.Index = aRef{i, k}, aRef{i, k}, "served"
+	case "consistent-cont", "consistent-dev", "consistent-fifo":
+		// an entry of a tar type the installer cannot lay out (the '7' one carries bytes nobody hashes): the build must abort
+		k := addAlt(func(a *aAlt) {
+			base := "opt/" + p.Name + "/"
+			switch kind {
+			case "consistent-cont":
+				a.Files = append(a.Files, aFile{Path: base + "contig", Type: "cont", Mode: 0o644, Content: "contiguous bytes\n", Rec: Pick(r, []string{"", "none"})})
+			case "consistent-dev":
+				a.Files = append(a.Files, aFile{Path: base + "dev", Type: Pick(r, []string{"char", "block"}), Mode: 0o600})
+			default:
+				a.Files = append(a.Files, aFile{Path: base + "fifo", Type: "fifo", Mode: 0o600})
+			}
+		})
+		s.Ctl, s.Dat, s.Index = aRef{i, k}, aRef{i, k}, "served"
+	case "consistent-hidden-cont":
+		// a hidden leading entry (skipped by the installer) of a data-bearing unsupported type, referenced by nothing
+		k := addAlt(func(a *aAlt) {
+			a.Files = append([]aFile{{Path: ".hid-" + p.Name, Type: "cont", Mode: 0o644, Content: "hidden bytes\n", Rec: "none"}}, a.Files...)
+		})
+		s.Ctl, s.Dat, s.Index = aRef{i, k}, aRef{i, k}, "served"
+	case "consistent-dup-regreg", "consistent-dup-symcopy", "consistent-dup-symown", "consistent-dup-hard", "consistent-dup-cont",
+		"consistent-dup-hidden", "consistent-dup-alias":
+		// one data section names an entry twice; control checksum, datahash and every per-file record are right
+		k := addAlt(func(a *aAlt) {
+			x := someReg(a)
+			if a.Files[x].Content == "" {
+				a.Files[x].Content = "shadowed " + p.Name + "\n"
+			}
+			a.Files[x].Rec = ""
+			own := a.Files[x].Content
+			name := a.Files[x].Path
+			base := "opt/" + p.Name + "/"
+			switch kind {
+			case "consistent-dup-regreg":
+				c := own + "second entry of the same name\n"
+				if r.Chance(50) {
+					c = sameLen(own, 'B')
+				}
+				a.Files = append(a.Files, aFile{Path: name, Type: "file", Mode: 0o644, Content: c})
+			case "consistent-dup-symcopy":
+				// a symlink of the same name that copies the record of the file it follows, pointing at a sibling of equal length
+				a.Files = append(a.Files, aFile{Path: base + "tw", Type: "file", Mode: 0o644, Content: sameLen(own, 'B')},
+					aFile{Path: name, Type: "symlink", Mode: 0o777, Link: "tw", RecOf: &own})
+			case "consistent-dup-symown":
+				a.Files = append(a.Files, aFile{Path: name, Type: "symlink", Mode: 0o777, Link: "nowhere"})
+			case "consistent-dup-hard":
+				a.Files = append(a.Files, aFile{Path: base + "tw", Type: "file", Mode: 0o644, Content: sameLen(own, 'B')},
+					aFile{Path: name, Type: "hardlink", Mode: 0o644, Link: base + "tw"})
+			case "consistent-dup-cont":
+				f := aFile{Path: name, Type: "cont", Mode: 0o644, Content: sameLen(own, 'C'), Rec: "none"}
+				if r.Chance(50) {
+					f.Rec, f.RecOf = "", &own
+				}
+				a.Files = append(a.Files, f)
+			case "consistent-dup-hidden":
+				// … pointing at a hidden leading entry of a type that nobody hashes
+				a.Files = append([]aFile{{Path: ".hid-" + p.Name, Type: "cont", Mode: 0o644, Content: sameLen(own, 'E'), Rec: "none"}}, a.Files...)
+				a.Files = append(a.Files, aFile{Path: name, Type: "symlink", Mode: 0o777, Link: "../../.hid-" + p.Name, RecOf: &own})
+			case "consistent-dup-alias":
+				// a second name (hard link) for the file, then a new regular entry under the first name
+				a.Files = append(a.Files, aFile{Path: base + "zalias", Type: "hardlink", Mode: 0o644, Link: name},
+					aFile{Path: name, Type: "file", Mode: 0o644, Content: sameLen(own, 'B')})
+			}
+		})
+		s.Ctl, s.Dat, s.Index = aRef{i, k}, aRef{i, k}, "served"
 	case "missing":
 		s.Missing = true
 	case "sig-flip":
@@ -227,7 +323,7 @@ func (authSuite) Gen(r *Rng, i int, tier string) any {
 		}
 		c.Variants = append(c.Variants, v)
 	}
-	nops := r.Range(1, 3)
+	nops := r.Range(1, 4)
 	for k := 0; k < nops; k++ {
 		op := aOp{Kind: "build"}
 		switch x := r.Intn(100); {
@@ -244,9 +340,14 @@ func (authSuite) Gen(r *Rng, i int, tier string) any {
 		if c.Cache && op.Variant != 0 && r.Chance(15) {
 			op.Plant = true
 		}
-		if op.Kind == "lbuild" && r.Chance(30) {
-			op.LockTamper = Pick(r, []string{"zero", "swap", "malformed", "bare"})
+		if op.Kind == "lbuild" && r.Chance(40) {
+			op.LockTamper = Pick(r, []string{"zero", "swap", "malformed", "bare", "caseflip", "bitflip", "noncanon"})
 			op.LockTarget = r.Intn(np)
+		}
+		// round 2: histories inside ONE process (the memo of expanded packages is only used with a cache directory,
+		// but the flag is drawn for every case: without one it must make no difference)
+		if k > 0 && r.Chance(55) {
+			op.Same = true
 		}
 		c.Ops = append(c.Ops, op)
 	}
@@ -331,6 +432,7 @@ func (w *aWorld) genuine(j, k int) (bool, string) {
 func (w *aWorld) oracle(layout map[string][]byte, expected []string) string {
 	img := imageFiles(layout)
 	cs := installedChecksums(img["lib/apk/db/installed"])
+	verified := map[string][][]byte{}
 	for i, p := range w.Pkgs {
 		// the installed db must record the expected control checksum (under whatever name the control section
 		// carries: authentication is relative to the index / lock entry, C05 says nothing about names)
@@ -355,16 +457,75 @@ func (w *aWorld) oracle(layout map[string][]byte, expected []string) string {
 		if ok, why := w.genuine(fj, fk); !ok {
 			return "fail:" + p.Name + " installed: " + why
 		}
+		named := map[string]int{}
 		for _, f := range w.Pkgs[fj].Alts[fk].Files {
-			if f.Type != "file" {
+			named[f.Path]++
+		}
+		for _, f := range w.Pkgs[fj].Alts[fk].Files {
+			// a name that occurs once must be there with its content; for a repeated name the check below decides
+			if f.Type != "file" || named[f.Path] > 1 {
 				continue
 			}
 			if c, ok := img[f.Path]; !ok || !bytes.Equal(c, []byte(f.Content)) {
 				return "fail:" + f.Path + " in the image differs from the authentic content"
 			}
 		}
+		for _, e := range w.Dat[fj][fk].Entries {
+			if e.Kind == "r" {
+				verified[e.Name] = append(verified[e.Name], e.Body)
+			}
+		}
+	}
+	// every regular file below opt/ holds the bytes of a regular entry OF THAT NAME whose per-file record was
+	// verified (genuine() above: every regular entry of the authentic builds matches its record)
+	for path, c := range img {
+		if !strings.HasPrefix(path, "opt/") {
+			continue
+		}
+		ok := false
+		for _, b := range verified[path] {
+			ok = ok || bytes.Equal(b, c)
+		}
+		if !ok {
+			return fmt.Sprintf("fail:%s in the image holds %q, which matches no verified per-file record of an entry of that name", path, truncate(string(c), 40))
+		}
 	}
 	return "pass"
+}
+
+func truncate(s string, n int) string {
+	if len(s) > n {
+		return s[:n] + "…"
+	}
+	return s
+}
+
+// authInstalledLine: the control checksums recorded by the installed db, sorted, without repetitions.
+func authInstalledLine(img map[string][]byte) string {
+	var out []string
+	for _, c := range installedChecksums(img["lib/apk/db/installed"]) {
+		out = append(out, c)
+	}
+	sort.Strings(out)
+	return strings.Join(dedup(out), ",")
+}
+
+// servedLine: `<hex path>=<token of the content>` of every regular file below opt/ in the image (`?`: bytes that
+// occur nowhere in the packages the harness built).
+func (w *aWorld) servedLine(img map[string][]byte) string {
+	var out []string
+	for path, c := range img {
+		if !strings.HasPrefix(path, "opt/") {
+			continue
+		}
+		t := "?"
+		if id, ok := w.ids[string(c)]; ok {
+			t = fmt.Sprint(id)
+		}
+		out = append(out, hx(path)+"="+t)
+	}
+	sort.Strings(out)
+	return strings.Join(out, ",")
 }
 
 func tamperLock(lock []byte, target string, mode string, swapWith string) ([]byte, error) {
@@ -392,6 +553,12 @@ func tamperLock(lock []byte, target string, mode string, swapWith string) ([]byt
 		e["checksum"] = "Q1!!not-base64!!"
 	case "bare":
 		e["checksum"] = strings.TrimPrefix(e["checksum"].(string), "Q1")
+	case "caseflip", "bitflip":
+		if d, err := base64.StdEncoding.DecodeString(strings.TrimPrefix(e["checksum"].(string), "Q1")); err == nil && len(d) == 20 {
+			e["checksum"] = "Q1" + base64.StdEncoding.EncodeToString(authNearMiss(d, mode))
+		}
+	case "noncanon":
+		e["checksum"] = authNonCanonical(e["checksum"].(string))
 	case "swap":
 		if o := find(swapWith); o != nil && swapWith != target {
 			e["checksum"] = o["checksum"]
@@ -414,7 +581,7 @@ func lockChecksums(lock []byte) map[string]string {
 	json.Unmarshal(lock, &l)
 	out := map[string]string{}
 	for _, p := range l.Contents.Packages {
-		out[p.Name] = q1ToHex(p.Checksum)
+		out[p.Name] = p.Checksum
 	}
 	return out
 }
@@ -449,33 +616,43 @@ func (authSuite) Run(raw json.RawMessage) []Step {
 	}
 	var steps []Step
 	var modelOps []string
+	// the lock file of variant 0, taken by the real `apko lock` in a process of its own (not part of the history)
 	var v0lock []byte
+	v0lockErr := ""
+	for _, op := range c.Ops {
+		if op.Kind == "lbuild" && v0lock == nil && v0lockErr == "" {
+			l, err := authLock(world, &SynthTransport{Repo: repos[0]}, "", true)
+			if err != nil {
+				v0lockErr = "lock of variant 0 failed: " + errTag(err)
+			}
+			v0lock = l
+			apk.VerifResetGlobalCaches()
+		}
+	}
 	coldWarm := "off"
 	if c.Cache {
 		coldWarm = "cold"
 	}
 	for k, op := range c.Ops {
+		fresh := k == 0 || !op.Same
 		v := c.Variants[op.Variant]
 		httpRepo := repos[op.Variant]
 		indexVariant := v
 		if op.Plant {
 			httpRepo, indexVariant = repos[0], c.Variants[0]
 		}
-		// expected checksums
+		// expected checksums: what they denote (driver notation) and the checksum strings themselves
 		expected := make([]string, len(c.Pkgs))
+		rawSum := make([]string, len(c.Pkgs))
 		for i := range c.Pkgs {
-			expected[i] = hex.EncodeToString(w.indexChecksum(i, indexVariant[i]))
+			ic := w.indexChecksum(i, indexVariant[i])
+			expected[i] = hex.EncodeToString(ic)
+			rawSum[i] = "Q1" + base64.StdEncoding.EncodeToString(ic)
 		}
 		var lock []byte
 		setupErr := ""
 		if op.Kind == "lbuild" {
-			if v0lock == nil {
-				l, err := authLock(world, &SynthTransport{Repo: repos[0]}, "")
-				if err != nil {
-					setupErr = "lock of variant 0 failed: " + errTag(err)
-				}
-				v0lock = l
-			}
+			setupErr = v0lockErr
 			lock = v0lock
 			if lock != nil && op.LockTamper != "" {
 				l, err := tamperLock(lock, c.Pkgs[op.LockTarget].Name, op.LockTamper, c.Pkgs[(op.LockTarget+1)%len(c.Pkgs)].Name)
@@ -487,7 +664,7 @@ func (authSuite) Run(raw json.RawMessage) []Step {
 			if lock != nil {
 				lc := lockChecksums(lock)
 				for i, p := range c.Pkgs {
-					expected[i] = lc[p.Name]
+					expected[i], rawSum[i] = q1ToHex(lc[p.Name]), lc[p.Name]
 				}
 			}
 		}
@@ -506,7 +683,7 @@ func (authSuite) Run(raw json.RawMessage) []Step {
 				}
 				f = fmt.Sprintf("%s:%d:%d", sg, w.tok(w.Ctl[s.Ctl.Pkg][s.Ctl.Alt].Bytes), w.tok(w.Dat[s.Dat.Pkg][s.Dat.Alt].Bytes))
 			}
-			pk = append(pk, fmt.Sprintf("%s.%s.%s", hx(p.Name+"-"+p.Version), expected[i], f))
+			pk = append(pk, fmt.Sprintf("%s.%s.%s.%s", hx(p.Name+"-"+p.Version), expected[i], f, hx(rawSum[i])))
 		}
 		kindCh, cacheCh := "b", "0"
 		if op.Kind == "lock" {
@@ -515,7 +692,11 @@ func (authSuite) Run(raw json.RawMessage) []Step {
 		if c.Cache {
 			cacheCh = "1"
 		}
-		modelOps = append(modelOps, kindCh+"@"+cacheCh+"@"+strings.Join(pk, "+"))
+		procCh := "s"
+		if fresh {
+			procCh = "f"
+		}
+		modelOps = append(modelOps, kindCh+"@"+cacheCh+"@"+strings.Join(pk, "+")+"@"+procCh)
 		args := strings.Join([]string{H, C, D, strings.Join(modelOps, ";"), fmt.Sprint(k)}, "\t")
 
 		// run the real command
@@ -538,9 +719,9 @@ func (authSuite) Run(raw json.RawMessage) []Step {
 		case setupErr != "":
 			err = fmt.Errorf("%s", setupErr)
 		case op.Kind == "lock":
-			_, err = authLock(world, tr, cacheRoot)
+			_, err = authLock(world, tr, cacheRoot, fresh)
 		default:
-			layout, err = authBuild(world, tr, cacheRoot, lock)
+			layout, err = authBuild(world, tr, cacheRoot, lock, fresh)
 		}
 		for _, f := range planted {
 			os.Remove(f)
@@ -567,8 +748,15 @@ func (authSuite) Run(raw json.RawMessage) []Step {
 			}
 		}
 		sort.Strings(tampers)
-		desc := fmt.Sprintf("op %d %s variant=%d tampers=%v cache=%s plant=%v locktamper=%s", k, op.Kind, op.Variant, tampers, coldWarm, op.Plant, op.LockTamper)
-		tags := []string{"op:" + op.Kind, "cache:" + coldWarm, "go:" + errTag(err)}
+		proc := "same"
+		if fresh {
+			proc = "fresh"
+		}
+		desc := fmt.Sprintf("op %d %s variant=%d tampers=%v cache=%s process=%s plant=%v locktamper=%s", k, op.Kind, op.Variant, tampers, coldWarm, proc, op.Plant, op.LockTamper)
+		tags := []string{"op:" + op.Kind, "cache:" + coldWarm, "go:" + errTag(err), "process:" + proc}
+		if !fresh && c.Cache {
+			tags = append(tags, "memo-live")
+		}
 		if len(tampers) == 0 {
 			tags = append(tags, "tamper:none")
 		}
@@ -587,6 +775,9 @@ func (authSuite) Run(raw json.RawMessage) []Step {
 			coldWarm = "warm"
 		}
 		if err == nil && layout != nil {
+			img := imageFiles(layout)
+			steps = append(steps, Step{Line: "auth.installed\t" + args, Go: authInstalledLine(img), Desc: desc + " (control checksums in the installed db)"})
+			steps = append(steps, Step{Line: "auth.files\t" + args, Go: w.servedLine(img), Desc: desc + " (bytes of the regular files laid out)"})
 			steps = append(steps, Step{Line: "auth.class\t" + args, Mode: "oracle-go", NoImpl: true, GoSpec: w.oracle(layout, expected), Go: "installed",
 				Desc: desc + " (image oracle)", Tags: []string{"oracle:image"}})
 		}
